@@ -148,7 +148,62 @@ theorem w_public_self_degenerate (LA : List ℚ) (n1 n : ℚ) : (wStatsPub LA LA
     simp [Soft64.fsub, Soft64.fl64_zero]
   rw [this]; rfl
 
+/-! ### no floor on small rates; the open-ended last magnitude bin -/
+
+/-- the gain reacts to EVERY positive rate, however small: raising the rate forecast A gives to one target event raises
+    the gain strictly (so no positive rate may be replaced by a floor such as machine epsilon) -/
+theorem ig_strict_mono_rate {a a' : ℝ} (ha : 0 < a) (h : a < a') (b : ℝ) (rA rB : List ℝ) {N : ℝ} (hN : 0 < N)
+    (NA NB : ℝ) : infoGain (a :: rA) (b :: rB) N NA NB < infoGain (a' :: rA) (b :: rB) N NA NB := by
+  simp only [infoGain, logDiffs, List.zipWith_cons_cons, RealOps.real_sum, List.sum_cons, RealOps.real_sub,
+    RealOps.real_div, RealOps.real_log]
+  have := Real.log_lt_log ha h
+  apply div_lt_div_of_pos_right _ hN
+  linarith
+
+/-- ... and symmetric in the benchmark: raising B's rate at a target event lowers the gain strictly -/
+theorem ig_strict_anti_rate {b b' : ℝ} (hb : 0 < b) (h : b < b') (a : ℝ) (rA rB : List ℝ) {N : ℝ} (hN : 0 < N)
+    (NA NB : ℝ) : infoGain (a :: rA) (b' :: rB) N NA NB < infoGain (a :: rA) (b :: rB) N NA NB := by
+  simp only [infoGain, logDiffs, List.zipWith_cons_cons, RealOps.real_sum, List.sum_cons, RealOps.real_sub,
+    RealOps.real_div, RealOps.real_log]
+  have := Real.log_lt_log hb h
+  apply div_lt_div_of_pos_right _ hN
+  linarith
+
+/-- every magnitude at or above the first edge has a bin, and a magnitude at or above the LAST edge — however far
+    above — lies in the last bin (it is open ended): the comparison tests return a result for such a catalog -/
+theorem mag_index_open_top (edges : List ℚ) (m : ℚ) (hall : ∀ e ∈ edges, e ≤ m) (hne : edges ≠ []) :
+    magIdxOpen edges m = some (edges.length - 1) := by
+  unfold magIdxOpen
+  have : edges.countP (fun e => decide (e ≤ m)) = edges.length := by
+    rw [List.countP_eq_length]; intro e he; simpa using hall e he
+  rw [this]
+  cases edges with
+  | nil => exact absurd rfl hne
+  | cons a l => simp
+
+/-- a bin is found exactly when the magnitude reaches some edge; the index is below the number of bins -/
+theorem mag_index_some_iff (edges : List ℚ) (m : ℚ) :
+    (∃ i, magIdxOpen edges m = some i ∧ i < edges.length) ↔ ∃ e ∈ edges, e ≤ m := by
+  unfold magIdxOpen
+  constructor
+  · rintro ⟨i, h, _⟩
+    have hpos : 0 < edges.countP (fun e => decide (e ≤ m)) := by
+      cases hc : edges.countP (fun e => decide (e ≤ m)) with
+      | zero => rw [hc] at h; cases h
+      | succ k => omega
+    obtain ⟨e, he, hd⟩ := List.countP_pos_iff.mp hpos
+    exact ⟨e, he, by simpa using hd⟩
+  · rintro ⟨e, he, hle⟩
+    have hpos : 0 < edges.countP (fun e => decide (e ≤ m)) :=
+      List.countP_pos_iff.mpr ⟨e, he, by simpa using hle⟩
+    have hle' := List.countP_le_length (p := fun e => decide (e ≤ m)) (l := edges)
+    cases hc : edges.countP (fun e => decide (e ≤ m)) with
+    | zero => omega
+    | succ k => exact ⟨k, rfl, by omega⟩
+
 -- non-vacuity
+example : magIdxOpen [4, 9 / 2, 5] (73 / 10) = some 2 ∧ magIdxOpen [4, 9 / 2, 5] (39 / 10) = none ∧
+    flatIdx [4, 9 / 2, 5] 7 (9 / 2) = some 22 := by decide +kernel
 example : variance [Real.exp 1, Real.exp 3] [1, 1] 2 = 2 := by
   have := var_eq_sample_variance [Real.exp 1, Real.exp 3] [1, 1] (by simp [logDiffs])
   simp only [logDiffs, List.zipWith_cons_cons, List.zipWith_nil_right, List.length_cons, List.length_nil] at this
